@@ -4,6 +4,7 @@ import (
 	"fmt"
 	"math/rand"
 	"os"
+	"sort"
 	"strings"
 	"time"
 )
@@ -26,6 +27,7 @@ type recording struct {
 	Skipped string // non-empty: the workload was abandoned (panic etc.)
 	MergeOK int
 	Failed  int
+	Faults  int // transactions whose Commit got an injected write error
 }
 
 // record runs the case with a recorder attached. keepDir leaves the directory in place.
@@ -48,8 +50,21 @@ func record(c Case, fault *FaultSpec) (*recording, *DBH, *Recorder, error) {
 		switch s.K {
 		case "tx":
 			s = resolveFills(h, s)
+			if s.Fault != nil && fault == nil {
+				// an injected write error inside this Commit: the records written before it stay in the segment, uncommitted
+				rec.Fault = &FaultSpec{Step: i, Kind: s.Fault.Kind, At: s.Fault.At, Partial: s.Fault.Partial}
+			}
 			rec.Mark(fmt.Sprintf("begin %d", i))
 			tr := h.RunTx(s, true, nil)
+			if s.Fault != nil && fault == nil {
+				if rec.Fault.Fired {
+					rc.Faults++
+					if tr.Committed {
+						return rc, h, rec, fmt.Errorf("step %d: Commit reported success although a write error was injected", i)
+					}
+				}
+				rec.Fault = nil
+			}
 			if tr.Panic != "" || tr.BeginErr != nil {
 				rc.Skipped = "panic in transaction: " + tr.Panic
 				rec.Mark(fmt.Sprintf("end %d panic", i))
@@ -331,6 +346,46 @@ func minInt(a, b int) int {
 // cannot crash and restart within the same millisecond.
 func waitMs() { time.Sleep(2 * time.Millisecond) }
 
+// dumpImage lists the records of every data segment of an image (debugging aid, VERIF_DEBUG).
+func dumpImage(fs *memFS) string {
+	var names []string
+	for n := range fs.files {
+		names = append(names, n)
+	}
+	sort.Strings(names)
+	var sb strings.Builder
+	for _, n := range names {
+		b := fs.files[n]
+		fmt.Fprintf(&sb, "%s (%d bytes)\n", n, len(b))
+		if !strings.HasSuffix(n, ".dat") {
+			continue
+		}
+		off := 0
+		for off+42 <= len(b) {
+			if allZero(b[off : off+42]) {
+				break
+			}
+			le := func(o, w int) uint64 {
+				var v uint64
+				for i := w - 1; i >= 0; i-- {
+					v = v<<8 | uint64(b[off+o+i])
+				}
+				return v
+			}
+			ks, vs, bsz := int(le(12, 4)), int(le(16, 4)), int(le(26, 4))
+			end := off + 42 + bsz + ks + vs
+			if end > len(b) || ks > 1<<20 || vs > 1<<20 || bsz > 1<<20 {
+				fmt.Fprintf(&sb, "  @%d torn/garbage header\n", off)
+				break
+			}
+			fmt.Fprintf(&sb, "  @%d tx=%d status=%d ds=%d flag=%d bucket=%q key=%q val=%q\n", off, le(34, 8), le(30, 2), le(32, 2), le(20, 2),
+				b[off+42:off+42+bsz], b[off+42+bsz:off+42+bsz+ks], b[off+42+bsz+ks:end])
+			off = end
+		}
+	}
+	return sb.String()
+}
+
 // ---- power-loss images (C11) ----
 // Per file the durable content is its content at its last sync event (absent if
 // never synced); truncations, writes and removals since then are volatile: any
@@ -376,6 +431,9 @@ func explorePowerLoss(c Case, rc *recording, st *Stats) (plStats, error) {
 				return nil
 			}
 			diffs = append(diffs, d)
+		}
+		if os.Getenv("VERIF_DEBUG") != "" {
+			fmt.Println("IMAGE:\n" + dumpImage(img))
 		}
 		return fmt.Errorf("state after power loss at %s (%s) is neither the state of the %d returned commits nor that plus the in-flight transaction: %s", cp, what, cp.C, strings.Join(diffs, " || "))
 	}
